@@ -69,6 +69,10 @@ type hubOp struct {
 	// sub: every SetWriteDeadline on this connection's ResponseWriter fails (connection torn down under the handler);
 	// to the model this is a connection whose next write fails
 	DeadlineErr bool `json:"deadline_err,omitempty"`
+	// FlushErr: every flush of this connection fails, from the one that follows the headers (the client reset the
+	// connection while it was being registered); Head: the subscription is requested with the HEAD method
+	FlushErr bool `json:"flush_err,omitempty"`
+	Head     bool `json:"head,omitempty"`
 }
 
 type hubCase struct {
@@ -564,7 +568,12 @@ func runHubCaseRaw(c *h.Ctx, r *h.Report, o *gen.Oracle, cs hubCase, uuidGen *co
 					q.Add("Last-Event-ID", v)
 				}
 				ctx, cancel := context.WithCancel(context.Background())
-				req, a, tok := hr.request(op, http.MethodGet, hubURL, q, "", now)
+				method := http.MethodGet
+				if op.Head {
+					method = http.MethodHead // routed to the same handler: a stream like any other
+					r.Count("subscription requested with HEAD")
+				}
+				req, a, tok := hr.request(op, method, hubURL, q, "", now)
 				req = req.WithContext(ctx)
 				if op.LeidH != "" {
 					req.Header.Set("Last-Event-ID", op.LeidH)
@@ -579,6 +588,7 @@ func runHubCaseRaw(c *h.Ctx, r *h.Report, o *gen.Oracle, cs hubCase, uuidGen *co
 				lc.w.gateFn = lc.gateFn
 				lc.w.holdFail = true
 				lc.w.deadlineErr = op.DeadlineErr
+				lc.w.flushErr = op.FlushErr
 				hr.conns = append(hr.conns, lc)
 				go func() {
 					defer lc.done.Store(true)
@@ -643,6 +653,9 @@ func runHubCaseRaw(c *h.Ctx, r *h.Report, o *gen.Oracle, cs hubCase, uuidGen *co
 					fmt.Sprintf("%d %s leid=%s", status, h.Hex(body), leid))
 				if op.DeadlineErr && status == 200 {
 					r.Count("connection whose SetWriteDeadline fails")
+				}
+				if op.FlushErr && status == 200 {
+					r.Count("connection whose flushes fail from the first one")
 				}
 			case "disc":
 				for _, lc := range hr.conns {
@@ -756,7 +769,7 @@ func runHubCaseRaw(c *h.Ctx, r *h.Report, o *gen.Oracle, cs hubCase, uuidGen *co
 			// stream — to the model, a client that goes away right after that event
 			for _, lc := range hr.conns {
 				lc.w.mu.Lock()
-				died := lc.w.deadlineErr && lc.w.dlCalls > 1 && !lc.dlTold
+				died := ((lc.w.deadlineErr && lc.w.dlCalls > 1) || (lc.w.flushErr && lc.w.flCalls > 1)) && !lc.dlTold
 				lc.w.mu.Unlock()
 				if died {
 					lc.dlTold = true
